@@ -26,7 +26,8 @@ LEVEL = 'exploration'
 RULE = ('full product of base lines (point letter {origin, 2 axis points, generic pool} x magnitude ladder x unit '
         'direction alphabet {coordinate axes, generic pool, near-degenerate} x length {1e-3,1,1e3}) x constructor '
         '{PQ, PointDir, Planes x {Plane objects, 4-vectors} x dihedral {pi/2, 0.7}} x { single-line methods x their '
-        'argument alphabets (lambda, query points, SE3 generator set, plane angle x normal length x plane form) ; '
+        'argument alphabets (lambda, query points, SE3 generator set, plane angle x normal length x plane form) ; on the '
+        'quick magnitude/length ladder and 3 (quick) or 4 (thorough) of the constructors: '
         'second line in relation {skew, intersecting, parallel, coincident} x {angle, distance, offsets, rescaling, '
         'sign, constructor and length of the second line} x operand order x method }; cases whose points leave the '
         'coordinate bound 1e3 or whose direction length leaves [1e-3,1e3] are dropped; a case is trivial when the '
@@ -174,7 +175,12 @@ def directions(tier, seed):
 
 CTORS = [('PQ', '-', '-'), ('PointDir', '-', '-'),
          ('Planes', 'PN', 'pi/2'), ('Planes', 'vec4', '0.7'), ('Planes', 'vec4', 'pi/2'), ('Planes', 'PN', '0.7')]
-PAIR_CTORS = CTORS[:4]
+
+
+def pair_ctors(tier):
+    return CTORS[:3] if tier == 'quick' else CTORS[:4]
+
+
 PHI = {'pi/2': PI / 2, '0.7': 0.7}
 
 LAMBDAS = [('0', 0.0), ('1e-3', 1e-3), ('-0.7', -0.7), ('30', 30.0), ('-1e3', -1e3)]
@@ -203,7 +209,13 @@ PFORM = ['Plane', 'vec4']
 THETAS = [('pi/2', PI / 2), ('0.7', 0.7), ('1e-2', 1e-2)]
 HS = [('1e-3', 1e-3), ('0.3', 0.3)]
 OFFS = [('0', 0.0, 0.0), ('g', 0.4, -0.7)]
-L2FORMS = [('PointDir', '1e-3', 1e-3), ('PointDir', '1', 1.0), ('PointDir', '1e3', 1e3), ('PQ', '1', 1.0)]
+L2FORMS = [('PointDir', '1e-3', 1e-3), ('PointDir', '1e3', 1e3), ('PQ', '1', 1.0), ('PointDir', '1', 1.0)]
+
+
+def l2forms(tier):
+    return L2FORMS[:3] if tier == 'quick' else L2FORMS
+
+
 SCALES = [('1', 1.0), ('2', 2.0), ('0.5', 0.5)]
 SIGNS = [('+', 1.0), ('-', -1.0)]
 ORDS = ['12', '21']
@@ -300,7 +312,7 @@ def all_letters(tier, seed):
         for dn, u in directions(tier, seed):
             for ln_name, ln in lens(tier):
                 for ctor, form, phi in CTORS:
-                    pair = ((mag in PAIR_MAGS or mag == '0') and ln_name in PAIR_LENS and (ctor, form, phi) in PAIR_CTORS)
+                    pair = ((mag in PAIR_MAGS or mag == '0') and ln_name in PAIR_LENS and (ctor, form, phi) in pair_ctors(tier))
                     out.append((ctor, form, phi, pt, mag, P, dn, u, ln_name, ln, pair))
     return out
 
@@ -656,7 +668,7 @@ def fam_single(ctx, ld, L, okL, siteL, tier, seed):
 
 # --------------------------------------------------------------------------- pair family
 
-def second_lines(ld):
+def second_lines(ld, tier):
     """yield (tag, params, args, (p2, u2), M-points, expectations) for every second line in known relative position"""
     u1, P1, m = ld.uref, ld.pref, ld.m
     n, b = frame(u1)
@@ -665,7 +677,7 @@ def second_lines(ld):
         u2 = u2 / norm(u2)
         for on, a, bb in OFFS:
             F1 = P1 + inward(P1, a * m * u1) if a else P1
-            for c2, l2n, l2 in L2FORMS:
+            for c2, l2n, l2 in l2forms(tier):
                 # intersecting in X = F1
                 for rel, hs in (('intersecting', [('0', 0.0)]), ('skew', HS)):
                     for hn, h in hs:
@@ -746,13 +758,13 @@ def expected(prm, meth, ctor1):
     raise HarnessError(meth)
 
 
-def fam_pairs(ctx, ld, L1):
+def fam_pairs(ctx, ld, L1, tier):
     SE3, Plucker, Plane = _lib()
     base = ld.base()
     P0 = ld.params()
     defnorms = [p for _, p in ld.defpts] or [ld.P]
     k1 = (ld.ctor, ld.form, ld.phi, ld.P.tobytes(), ld.d.tobytes())
-    for tag, prm, args, (p2, u2), pts2, X in second_lines(ld):
+    for tag, prm, args, (p2, u2), pts2, X in second_lines(ld, tier):
         pre = base + '/pair/' + tag + '/'
         if ctx.only is not None and not ctx.only.startswith(pre):
             continue
@@ -961,4 +973,4 @@ def run_shard(ctx, shard):
         okL, L, siteL = build(ld)
         fam_single(ctx, ld, L, okL, siteL, tier, seed)
         if okL and ld.pair:
-            fam_pairs(ctx, ld, L)
+            fam_pairs(ctx, ld, L, tier)
